@@ -2701,7 +2701,6 @@ emit_member_type_selector(arg_t *arg, asn1p_expr_t *expr, asn1c_ioc_table_and_ob
     OUT("size_t for_column = %zu; /* %s */\n", for_column, for_field);
     OUT("size_t row, presence_index = 0;\n");
 
-    const char *tname = asn1c_type_name(arg, constraining_memb, TNF_SAFE);
     if(constraining_memb->marker.flags & EM_INDIRECT) {
         OUT("const void *memb_ptr = *(const void **)");
         OUT("((const char *)parent_sptr + offsetof(%s", c_name(arg).full_name);
@@ -2711,9 +2710,12 @@ emit_member_type_selector(arg_t *arg, asn1p_expr_t *expr, asn1c_ioc_table_and_ob
     }
 
     switch(asn1c_type_fits_long(arg, constraining_memb)) {
-    case FL_NOTFIT:
+    case FL_NOTFIT: {
+        /* Ask late: the name lives in a buffer MKID_safe() also uses */
+        const char *tname = asn1c_type_name(arg, constraining_memb, TNF_SAFE);
         OUT("const %s_t *constraining_value = (const %s_t *)", tname, tname);
         break;
+    }
     case FL_PRESUMED:
     case FL_FITS_SIGNED:
         OUT("const long *constraining_value = (const long *)");
